@@ -146,6 +146,9 @@ def cases(ctx):
             m, o_ = rng.sample(NAMES, 2)
             hist.append([f"let {m} = {rng.randint(1, 9) * 10};", f"let {o_} = {rng.randint(1, 9)};", r_.format(m=m, o=o_), u_.format(m=m, o=o_), f"puts(\"@@O top \", {m});"])
     # the recorded finding, always exercised: a definition in the unexecuted tail of a line that failed at run time
+    # a long session: more global definitions than any small fixed table (the REPL carries its global store from line to line)
+    many = ["".join(f"let v{10 * k + j} = {10 * k + j}; " for j in range(10)) for k in range(30)]
+    hist.append(many + ["puts(\"@@O \", v0 + v7 + v255 + v256 + v299);", "let v300 = v299 + 1; puts(\"@@O \", v300);"])
     hist.append(["let a = 1 // first\nlet b = 2", "puts(\"@@O \", a + b);", "let c = 10 # c\nlet d = c * 2\nputs(\"@@O \", d);"])
     hist.append(["let y = 1;", "let x = 2; [1][9]; let y = 0;", "puts(\"@@O \", y);"])
     hist.append(["let z = 7;", "puts(\"@@O \", z); [1][9]; let z = 0;", "puts(\"@@O \", z + 1);", "let z = 3;", "puts(\"@@O \", z);"])
